@@ -271,7 +271,7 @@ func parseShort(s string, specs []*OptionSpec) ([]*Option, bool) {
 
 func findShort(r rune, specs []*OptionSpec) *OptionSpec {
 	for _, opt := range specs {
-		if r == opt.Short {
+		if opt.Short != 0 && r == opt.Short {
 			return opt
 		}
 	}
@@ -283,6 +283,10 @@ func findShort(r rune, specs []*OptionSpec) *OptionSpec {
 func parseLong(s string, specs []*OptionSpec) (*Option, bool) {
 	eq := strings.IndexRune(s, '=')
 	for _, opt := range specs {
+		if opt.Long == "" {
+			// Short-only option
+			continue
+		}
 		if s == opt.Long {
 			return &Option{Spec: opt, Long: true}, opt.Arity == RequiredArgument
 		} else if eq != -1 && s[:eq] == opt.Long {
